@@ -24,7 +24,7 @@ def run_check(prop: str, tier: str, repo: str) -> int:
         ctx = Ctx(prog, prop, tier, repo)
         mod.check(ctx, prog)
         rc = finish(ctx, mod.EXPLANATION)
-        if rc == 0 and tier == "thorough" and hasattr(mod, "selftest"):
+        if rc == 0 and tier == "thorough" and not os.environ.get("NUCSVERIF_NO_SELFTEST"):
             from .selftest import run_selftest
 
             rc = run_selftest(prop, mod, repo)
